@@ -32,7 +32,7 @@ ASSUMPTIONS = ["known findings are keyed by (phase, exception type, raising "
                "place is reported as new",
                "step budget: 3000 + 150 * len(frame) executed lines in "
                "pox.lib.packet per parse+print+pack"]
-REQUIRED = ["frames", "parsed_ok", "truncations", "corruptions", "structured",
+REQUIRED = ["frames", "unparsed_layers_compared_with_their_region", "payload_presence_checked", "parsed_ok", "truncations", "corruptions", "structured",
             "random_frames", "chains_walked", "reserialised", "printed",
             "budget_armed", "packet_in_events", "checksum_fixed_mutants",
             "deeply_nested_frames"]
@@ -139,10 +139,70 @@ def check_frame (raw, rep, case):
     if q is not None and len(q) and bytes(q) not in raw:
       fire("unparsed remainder is not taken from the input [%s]" % names[-1],
            "remainder %s" % bytes(q)[:40].hex()); return
-    # print / dump / re-serialise
+    # "keeps the unparsed remainder": (a) the first layer that is not parsed
+    # holds the bytes it was given, taken from the input, and serialises to
+    # exactly those; (b) a parsed header that had bytes behind it has a
+    # payload - those bytes did not just vanish
+    layers = []
+    x = p
+    while isinstance(x, packet_base) and len(layers) < 4096:
+      layers.append(x); x = x.next
+    for li, L in enumerate(layers):
+      if L.parsed: continue
+      rep.count("unparsed_layers_checked")
+      # where its parent says its payload lies, that is what it must hold
+      par = layers[li - 1] if li else None
+      region = None
+      try:
+        if par is not None and isinstance(par.raw, (bytes, bytearray)):
+          pn = type(par).__name__
+          if pn == "ipv4": region = par.raw[par.hl * 4:min(len(par.raw), par.iplen)]
+          elif pn == "udp": region = par.raw[8:]
+          elif pn == "ethernet" and par.type != 0x8100 and par.type >= 0x600: region = par.raw[14:]
+          elif pn == "ipv6" and not getattr(par, "extension_headers", None):
+            region = par.raw[40:40 + par.payload_length]
+      except Exception:
+        region = None
+      if region is not None and len(region):
+        rep.count("unparsed_layers_compared_with_their_region")
+        if L.raw is None or bytes(L.raw) != bytes(region):
+          fire("an unparsed layer does not hold the bytes its parent gave it [%s under %s]" %
+               (type(L).__name__, type(par).__name__),
+               "holds %d bytes, the region has %d" %
+               (len(L.raw) if L.raw is not None else -1, len(region))); return
+      if L.raw is not None:
+        if not isinstance(L.raw, (bytes, bytearray)) or (len(L.raw) and bytes(L.raw) not in raw):
+          fire("an unparsed layer does not hold bytes of the input [%s]" % type(L).__name__,
+               repr(L.raw)[:80]); return
+      break
+    last = layers[-1] if layers else None
+    if last is not None and last.parsed and last.next is None and \
+       isinstance(last.raw, (bytes, bytearray)):
+      tn = type(last).__name__
+      had = None
+      try:
+        if tn == "udp": had = len(last.raw) - 8
+        elif tn == "tcp" and isinstance(getattr(last, "hdr_len", None), int): had = len(last.raw) - last.hdr_len
+        elif tn == "ipv4": had = min(len(last.raw), last.iplen) - last.hl * 4
+        elif tn == "ethernet": had = len(last.raw) - 14
+        elif tn in ("vlan", "mpls"): had = len(last.raw) - 4
+      except Exception:
+        had = None
+      if had is not None:
+        rep.count("payload_presence_checked")
+        if had > 0:
+          fire("a parsed %s header lost the bytes behind it" % tn,
+               "%d bytes followed the header in the input; the parsed layer "
+               "has no payload (layers %s)" % (had, ">".join(names)))
+          return
+    # print / dump / re-serialise (and once more: handlers log, then forward)
+    first_pack = []
     for what, f in (("str", lambda: str(p)), ("dump", lambda: p.dump()),
+                    ("pack", lambda: p.pack()), ("str", lambda: str(p)),
                     ("pack", lambda: p.pack())):
       try:
+        # (each operation gets its own budget)
+        bud.disarm(); bud.arm(3000 + 150 * len(raw))
         r = f()
       except budget.BudgetExceeded:
         fire("%s does not terminate in %s" % (what, bud.where), raw.hex()[:200])
@@ -158,6 +218,10 @@ def check_frame (raw, rep, case):
         rep.count("reserialised")
         if not isinstance(r, bytes):
           fire("pack returns %s" % type(r).__name__, ">".join(names)); return
+        if first_pack and r != first_pack[0]:
+          fire("serialising the same parse result twice gives different bytes",
+               "layers %s" % ">".join(names)); return
+        first_pack.append(r)
       else:
         rep.count("printed")
   finally:
@@ -265,6 +329,36 @@ def deep_frames ():
       if len(inner) > 64000: break
       inner = F.ipv4(0x0a000002, 0x0a000001, 1, F.icmp(3, 1, b"\0\0\0\0", inner))
     yield "icmp_quote_x%d" % n, F.eth(M2, M1, 0x0800, inner)
+
+
+  # tunnels in tunnels: VXLAN in UDP in IP in Ethernet in VXLAN ... (a layer
+  # whose header is computed from its payload must not serialise that payload
+  # once more per level), and Ethernet in GRE in IP
+  for n in (8, 16, 30, 300):
+    inner = F.eth(M2, M1, 0x88b5, b"innermost")
+    for i in range(n):
+      if len(inner) > 60000: break
+      u = F.udp(40000 + i % 100, 4789, struct.pack("!LL", 0x08000000, 77 << 8) + inner,
+                src=0x0a000001, dst=0x0a000002)
+      inner = F.eth(M2, M1, 0x0800, F.ipv4(0x0a000001, 0x0a000002, 17, u))
+    yield "vxlan_x%d" % n, inner
+  for n in (8, 30, 300):
+    inner = F.eth(M2, M1, 0x88b5, b"innermost")
+    for i in range(n):
+      if len(inner) > 60000: break
+      inner = F.eth(M2, M1, 0x0800, F.ipv4(0x0a000001, 0x0a000002, 47,
+                                           struct.pack("!HH", 0, 0x6558) + inner))
+    yield "gre_eth_x%d" % n, inner
+  for n in (8, 30, 200):
+    # the same with the GRE checksum present (computed over the payload)
+    inner = F.eth(M2, M1, 0x88b5, b"innermost")
+    for i in range(n):
+      if len(inner) > 60000: break
+      from pvm.ref import inet
+      g = struct.pack("!HHHH", 0x8000, 0x6558, 0, 0) + inner
+      g = g[:4] + struct.pack("!H", inet.csum(g)) + g[6:]
+      inner = F.eth(M2, M1, 0x0800, F.ipv4(0x0a000001, 0x0a000002, 47, g))
+    yield "gre_csum_eth_x%d" % n, inner
 
 
 def random_frames (rng, n):
